@@ -606,6 +606,21 @@ Proof.
   eapply NoDup_nth; eauto; rewrite map_length; assumption.
 Qed.
 
+(* the same for the scopes reported by _finish_deferred_load_checks *)
+Lemma report_unused_checkers : forall d s, checkers (report_unused_of s d) = checkers s.
+Proof. intros d s. destruct (report_unused_shape0 d s) as (u & E). rewrite E. reflexivity. Qed.
+Lemma reports_spec : forall ds s l i,
+  In (l, i) (unused (fold_left report_unused_of ds s)) ->
+  In (l, i) (unused s) \/
+  exists d k c, In d ds /\ In (k, Chk c) d /\ c_used (checker_at s c) = false /\ c_line (checker_at s c) = l /\ c_imp (checker_at s c) = i.
+Proof.
+  induction ds as [|d ds IH]; intros s l i H; cbn [fold_left] in H. auto.
+  apply IH in H as [H|(d' & k & c & Hd & Hk & Hu & Hl & Hi)].
+  - apply report_unused_spec in H as [H|(k & c & Hk & Hu & Hl & Hi)]. auto.
+    right. exists d, k, c. split. left; reflexivity. auto.
+  - right. exists d', k, c. split. right; exact Hd. unfold checker_at in *. rewrite report_unused_checkers in Hu, Hl, Hi. auto.
+Qed.
+
 (* unused_sound on stage 1: an import reported unused is the binding of no read *)
 Theorem u1_unused_sound : forall bi ns p, u1_block p = true -> star_free bi ns = true ->
   NoDup (imp_events (bsrcs_block false p)) ->
@@ -620,10 +635,17 @@ Proof.
   unfold pysem in Hrd. rewrite E in Hrd. cbn [snd] in Hrd.
   cbn [snd] in Hin. rewrite sort_by_In in Hin.
   set (s1 := vblock true p stk s0) in *.
-  assert (Hsc : scan_node true p stk s0 = with_deferred s1 []).
+  assert (Hsc : scan_node true p stk s0 = with_deferred (fold_left report_unused_of (pending_dicts s1 (top stk)) s1) []).
   { unfold scan_node, finish_deferred. fold s1. rewrite (u_def _ _ _ _ _ U). reflexivity. }
-  rewrite Hsc in Hin. unfold scan_unused, pop in Hin.
+  rewrite Hsc in Hin. unfold scan_unused in Hin.
   apply report_unused_spec in Hin.
+  assert (Hck : checkers (fold_left report_unused_of (pending_dicts s1 (top stk)) s1) = checkers s1).
+  { destruct (reports_shape (pending_dicts s1 (top stk)) s1) as (u & E0). rewrite E0. reflexivity. }
+  assert (Hin' : In (l, i) (unused s1) \/ exists c, c_used (checker_at s1 c) = false /\ c_line (checker_at s1 c) = l /\ c_imp (checker_at s1 c) = i).
+  { destruct Hin as [Hin|(k & c & Hk & Hu & Hl & Hi)].
+    - cbn [unused with_deferred] in Hin. apply reports_spec in Hin as [Hin|(d & k & c & _ & _ & Hu & Hl & Hi)]; eauto.
+    - right. exists c. unfold checker_at in *. cbn [checkers with_deferred] in Hu, Hl, Hi. rewrite Hck in Hu, Hl, Hi. auto. }
+  clear Hin. rename Hin' into Hin.
   (* the checker that was marked by the read *)
   destruct (u_reads _ _ _ _ _ U _ _ _ _ Hrd) as (c1 & Hlt1 & Hl1 & Hi1 & Hu1).
   assert (Hpairs : NoDup (map (fun ck => (c_line ck, c_imp ck)) (checkers s1))).
@@ -632,14 +654,10 @@ Proof.
   { intros c0 Hlt0 Hl0 Hi0. unfold checker_at in *.
     apply (NoDup_map_nth _ _ (fun ck => (c_line ck, c_imp ck)) (checkers s1) (mkChecker ([], []) 0 true)); auto.
     cbn. rewrite Hl0, Hi0, Hl1, Hi1. reflexivity. }
-  destruct Hin as [Hin|(k & c & Hk & Hu & Hl & Hi)].
-  - cbn in Hin. destruct (u_unused _ _ _ _ _ U _ _ Hin) as (c0 & Hlt0 & Hl0 & Hi0 & Hu0 & _).
+  destruct Hin as [Hin|(c & Hu & Hl & Hi)].
+  - destruct (u_unused _ _ _ _ _ U _ _ Hin) as (c0 & Hlt0 & Hl0 & Hi0 & Hu0 & _).
     assert (c0 = c1) by (apply Hsame; auto). subst c0. congruence.
-  - change (checker_at (with_deferred s1 []) c) with (checker_at s1 c) in *.
-    change (scope_dict (with_deferred s1 []) (top stk)) with (scope_dict s1 (top stk)) in Hk.
-    destruct (dict_get_In _ _ _ Hk) as (e' & He').
-    (* the entry of the dict for key k is the one found by dict_get only if keys are unique; use u_chk on the found entry *)
-    assert (Hlt : c < length (checkers s1)).
+  - assert (Hlt : c < length (checkers s1)).
     { destruct (Nat.lt_ge_cases c (length (checkers s1))) as [H|H]; auto.
       exfalso. unfold checker_at in Hu. rewrite nth_overflow in Hu by exact H. discriminate. }
     assert (c = c1) by (apply Hsame; auto). subst c. congruence.
